@@ -55,7 +55,8 @@ QUALS = {"const", "volatile", "struct", "class", "enum", "typename", "restrict",
 
 
 def tokenize(s):
-    s = s.replace("(anonymous namespace)::", "").replace("(lambda at", "lambda_at(")
+    s = s.replace("(anonymous namespace)::", "")
+    s = re.sub(r"\(lambda at [^()]*\)", "vf_lambda", s)  # closure types: modelled like std::function (struct vf_fn)
     pos, out = 0, []
     while pos < len(s):
         m = _tok_re.match(s, pos)
@@ -270,9 +271,12 @@ def parse(s):
 SMART_PTRS = {"intrusive_ptr", "unique_ptr", "shared_ptr", "weak_ptr"}
 SEQS = {"vector", "deque", "list"}
 SEQ_ITERS = {"__normal_iterator", "_Deque_iterator", "_List_iterator", "_List_const_iterator"}
+# iterators of the map/set models: pointer to the entry (pair) / key
+ASSOC_ITERS = {"_Rb_tree_iterator", "_Rb_tree_const_iterator", "_Node_iterator", "_Node_const_iterator",
+               "_Node_iterator_base"}
 INT_TYPEDEFS = {
     "size_t": "size_t", "std::size_t": "size_t", "ssize_t": "long", "ptrdiff_t": "long", "std::ptrdiff_t": "long",
-    "aid_t": "long", "sg_size_t": "unsigned long", "sg_offset_t": "long",
+    "aid_t": "long", "sg_size_t": "unsigned long long", "sg_offset_t": "long long",
     "uint8_t": "unsigned char", "int8_t": "signed char", "uint16_t": "unsigned short", "int16_t": "short",
     "uint32_t": "unsigned int", "int32_t": "int", "uint64_t": "unsigned long", "int64_t": "long",
     "uintptr_t": "unsigned long", "intptr_t": "long", "std::uint32_t": "unsigned int", "std::uint64_t": "unsigned long",
@@ -309,6 +313,7 @@ class TypeMap:
         self.set_insts = {}  # tag -> k
         self.ilist_insts = {}  # tag -> (elem ctype, hook member name)   boost::intrusive::list
         self.used_structs = []  # ordered list of struct tags referenced
+        self.carr_insts = {}  # typedef name -> (elem ctype, N) for pointer-to-array types
 
     def learn(self, sugar, desugared):
         if not sugar or not desugared or sugar == desugared:
@@ -330,6 +335,8 @@ class TypeMap:
         return t
 
     def tag(self, ctype):
+        # LP64: size_t and unsigned long are one type; one tag, so that pair<size_t,..> and pair<unsigned long,..> coincide
+        ctype = re.sub(r"\bsize_t\b", "unsigned long", ctype)
         return ident(ctype.replace("struct ", "").replace("*", "P").replace(" ", "_"))
 
     def struct_tag(self, name):
@@ -382,6 +389,12 @@ class TypeMap:
         if k == "ptr":
             if t.to.kind == "func":
                 return "vf_fnptr"
+            if t.to.kind == "array" and t.to.n is not None and str(t.to.n).isdigit():
+                # pointer to array of N T (parameter `T a[][N]`): typedef T vf_carr_T_N[N]; the pointee decays as in C++
+                e = self.c(t.to.to)
+                name = "vf_carr_%s_%s" % (self.tag(e), t.to.n)
+                self.carr_insts[name] = (e, str(t.to.n))
+                return name + "*"
             return self.c(t.to) + "*"
         if k == "array":
             raise Unsupported("array type in this position: %r" % t)
@@ -392,6 +405,10 @@ class TypeMap:
         name = t.name
         if name in ("bool", "_Bool"):
             return "_Bool"
+        if name in ("std::strong_ordering", "strong_ordering") and not t.args:
+            return "int"  # -1 less, 0 equal/equivalent, 1 greater
+        if name in ("std::_Bit_reference", "_Bit_reference", "std::vector<bool>::reference"):
+            return "_Bool"  # proxy reference to an element of vector<bool>: the element lvalue of the seq model
         words = name.split(" ")
         if all(w in BUILTIN_WORDS for w in words):
             if name == "auto":
@@ -421,14 +438,20 @@ class TypeMap:
             tg = self.tag(e)
             self.seq_insts.setdefault(tg, e)
             return "struct vf_seq_" + tg
+        if last == "reverse_iterator" and t.args and "::" not in name.replace("std::", "", 1):
+            # std::reverse_iterator<It>: the value of its base() iterator; *r is *(base-1), ++r is --base (libmap)
+            return self.c(t.args[0])
         if last in SEQ_ITERS and t.args:
             a0 = t.args[0]
             if last == "__normal_iterator":
                 return self.c(a0)  # already T*
             return self.c(a0) + "*"
-        if last in ("iterator", "const_iterator", "reverse_iterator", "const_reverse_iterator") and "::" in name:
+        if last in ASSOC_ITERS and t.args:
+            return self.c(t.args[0]) + "*"
+        if last in ("iterator", "const_iterator", "reverse_iterator", "const_reverse_iterator") and "::" in name \
+                and not t.args:
             # std::vector<T>::iterator printed unsugared
-            m = re.match(r"(.*)<(.*)>::(const_)?iterator$", name)
+            m = re.match(r"(.*)<(.*)>::(const_)?(reverse_)?iterator$", name)
             if m and m.group(1).split("::")[-1] in SEQS:
                 return self.c(parse(first_targ(m.group(2)))) + "*"
             raise Unsupported("iterator type %s" % name)
@@ -444,8 +467,10 @@ class TypeMap:
             return "struct vf_opt_" + tg
         if last in ("atomic", "__atomic_base") and t.args:
             return self.c(t.args[0])
-        if last == "function" and t.args:
+        if (last == "function" and t.args) or name == "vf_lambda":
             return "struct vf_fn"
+        if last in ("unique_lock", "lock_guard", "scoped_lock"):
+            return "struct vf_lock"  # lock ownership token: mutual exclusion itself is not modelled (sequential units)
         if last == "array" and len(t.args) == 2 and t.args[1].kind == "lit":
             e = self.c(t.args[0])
             n = re.sub(r"[uUlL]+$", "", t.args[1].name)
@@ -456,12 +481,15 @@ class TypeMap:
             return self.scalar_classes[last]["ctype"]
         if last in ("mersenne_twister_engine", "mt19937"):
             return "struct vf_mt19937"
+        if last == "exception_ptr" and not t.args and name.startswith("std::"):
+            return "vf_excptr"  # std::exception_ptr: the KIND of the stored exception (0 = null, VF_EXC_<Type>)
         if last == "result_type" and "mersenne_twister_engine" in name:
             return "unsigned long"
         if last in ("map", "unordered_map") and len(t.args) >= 2:
             a, b = self.c(t.args[0]), self.c(t.args[1])
             tg = self.tag(a) + "__" + self.tag(b)
             self.map_insts.setdefault(tg, (a, b))
+            self.pair_insts.setdefault(tg, (a, b))  # the map model stores entries of this pair type
             return "struct vf_map_" + tg
         if last in ("set", "unordered_set", "flat_set") and t.args:
             a = self.c(t.args[0])
@@ -488,6 +516,18 @@ class TypeMap:
         if not t.args and re.fullmatch(r"[A-Z]\w*Ptr", last) and last not in self.class_alias:
             # SimGrid convention: XxxPtr = boost::intrusive_ptr<Xxx>
             return self.c(T("named", name=name[:-3])) + "*"
+        if last in ("value_type", "reference", "pointer") and "<" in name:
+            # member types of the map/set iterators: the entry type (first template argument) / pointer to it
+            m = re.match(r"(?:.*?::)?([A-Za-z_]\w*)<(.*)>::(value_type|reference|pointer)$", name)
+            if m and m.group(1) in ASSOC_ITERS:
+                inner = self.c(parse(first_targ(m.group(2))))
+                return inner + ("*" if m.group(3) != "value_type" else "")
+        if last in ("value_type", "pointer", "const_pointer") and "<" in name:
+            # member types of std::array / the sequence containers: the element type (first template argument) / pointer to it
+            m = re.match(r"(?:.*?::)?([A-Za-z_]\w*)<(.*)>::(value_type|pointer|const_pointer)$", name)
+            if m and (m.group(1) == "array" or m.group(1) in SEQS):
+                inner = self.c(parse(first_targ(m.group(2))))
+                return inner + ("*" if m.group(3) != "value_type" else "")
         if last in ("reference", "const_reference", "value_type", "_Self", "pointer", "mapped_type", "key_type"):
             raise Unsupported("dependent member type %s (no desugared form)" % name)
         # class type
